@@ -121,6 +121,8 @@ def case(draw):
         lj["proc"] = pre + "s3000,x0"
         lj["control"] = True
         lj["interrupt"] = draw(st.booleans())
+        # sometimes attached to the console (as the jobs of Ninja's console pool are); it prints nothing
+        lj["console"] = draw(st.integers(0, 2)) == 0
         long_job = lj["id"]
     nowait = draw(st.integers(0, 3)) == 0
     if nowait:
@@ -134,7 +136,16 @@ def case(draw):
         cancel = draw(st.sampled_from([1, 2, 5, 10]))       # (the long child only appears in cancelled runs)
     if cancel is not None and cancel > n:
         cancel = n
+    # cancellation from a thread of its own at a generated moment (instead of from a job body), racing launches
+    # whose environment takes a while to form
+    cancel_usec = None
+    if cancel is None and long_job is None and draw(st.integers(0, 5)) == 0:
+        cancel_usec = draw(st.sampled_from([0, 100, 300, 1000, 3000, 10000]))
+        for j in jobs:
+            if j["proc"] is not None and draw(st.booleans()):
+                j["bigenv"] = draw(st.sampled_from([2000, 20000]))
     return {"kind": kind, "lanes": lanes, "alg": draw(st.sampled_from(["fifo", "prio"])), "jobs": jobs, "top": top,
+            "cancel_usec": cancel_usec,
             "cancel": cancel, "long_job": long_job,
             # destroy the queue right after the submits: its destructor has to drain what is still queued
             "nowait": nowait}
@@ -155,11 +166,17 @@ def script_of(c):
                 int(j["inherit"]), int(j["control"]), int(j["interrupt"]))
             if j.get("fds") is not None:
                 line += " fds=%d" % j["fds"]
+            if j.get("console"):
+                line += " console=1"
+            if j.get("bigenv"):
+                line += " bigenv=%d" % j["bigenv"]
         L.append(line)
     for t in c["top"]:
         L.append("submit " + t)
     if c["cancel"]:
         L.append("cancel jobs=%d" % c["cancel"])
+    elif c.get("cancel_usec") is not None:
+        L.append("cancel usec=%d" % c["cancel_usec"])
     if c.get("nowait"):
         L.append("nowait")
     L.append("end")
@@ -310,7 +327,7 @@ def run_case(case, ctx, verbose=False):
         mx = max(mx, cur)
     if mx > case["lanes"]:
         return Outcome("%d job bodies in flight with %d lanes" % (mx, case["lanes"]))
-    cancelled_run = case["cancel"] is not None and cancel_ret is not None
+    cancelled_run = (case["cancel"] is not None or case.get("cancel_usec") is not None) and cancel_ret is not None
     big = False
     released_any = False
     starved = False
@@ -370,6 +387,8 @@ def run_case(case, ctx, verbose=False):
         cls.append("lane-release")
     if starved:
         cls.append("descriptor-starved-launch")
+    if case.get("cancel_usec") is not None:
+        cls.append("cancel-from-another-thread")
     if case.get("long_job") and cancelled_run:
         cls.append("long-lived-child-at-cancel")
     if any(j.get("exe", "-child") != "-child" for j in case["jobs"] if j["proc"] is not None):
